@@ -3165,7 +3165,11 @@ def tflite_optimise_graph(nng, arch, force_symmetric_int_weights, output_basenam
                 ofm_clone = ofm.clone()
                 ofm_clone.values = ofm.values
                 ofm.values = None
-                zero = create_const_tensor("zero", [1], ofm.dtype, [0], quantization=ofm.quantization)
+                # the constant 0 that is added: code 0 means the real value 0 only under a zero point of 0
+                zero_quant = ofm.quantization.clone() if ofm.quantization is not None else None
+                if zero_quant is not None:
+                    zero_quant.zero_point = 0
+                zero = create_const_tensor("zero", [1], ofm.dtype, [0], quantization=zero_quant)
                 memcpy = create_add_nop(f"{ofm.name}_copy")
                 memcpy.add_input_tensor(ofm_clone)
                 memcpy.add_input_tensor(zero)
